@@ -36,10 +36,25 @@ func sessionSnap(srv *sadns.ServerDnsListener, c net.Conn) string {
 
 func init() {
 	opTimeout["c12s"] = 15 * time.Second
-	// c12s <qtype> <qclass> <nquestions> <from-owner 0/1> <#name (wire labels are built from this presentation-format text)> [raw 0/1]
+	// c12s <qtype> <qclass> <nquestions> <from-owner 0/1> <#label>*     (the labels of the question name as they are on the wire)
 	//   an established session (user 0, address 1, one queued downstream chunk) exists; the crafted query is delivered from a foreign
-	//   address (or from the owner's); -> answered <kind> | noanswer | panic <site> ; then same 0/1 (session untouched) alloc <KiB>
+	//   address (or from the owner's)
+	//  -> unpackable | (answered <kind> | noanswer | panic <site>) same 0/1 allocKiB <n> [write returns|hangs chunks <n>]
 	register("c12s", func(a []Tok) []Tok {
+		// the message as it is on the wire; what the DNS library refuses to unpack never reaches the handler
+		nq := int(a[2].I)
+		buf := []byte{0, 77, 0x01, 0, byte(nq >> 8), byte(nq), 0, 0, 0, 0, 0, 0}
+		for i := 0; i < nq; i++ {
+			for _, l := range a[4:] {
+				buf = append(buf, byte(len(l.B)))
+				buf = append(buf, l.B...)
+			}
+			buf = append(buf, 0, byte(a[0].I>>8), byte(a[0].I), byte(a[1].I>>8), byte(a[1].I))
+		}
+		mw := &dns.Msg{}
+		if err := mw.Unpack(buf); err != nil {
+			return []Tok{TW("unpackable")}
+		}
 		sc := &fakeServerComm{}
 		srv := sadns.NewServerDnsListener(testDomain, sc)
 		defer sc.Close()
@@ -58,24 +73,9 @@ func init() {
 		sadns.VerifQueueChunk(sess, []byte("downstream-chunk"))
 		exchange(sc, ser, &commands.PacketRequest{UserId: 0, LastAckedSeqNo: 65535, Packet: &util.Packet{SeqNo: 0, Data: []byte("hello")}}, addrN(1))
 		before := sessionSnap(srv, sess)
-		// the stray message
-		m := &dns.Msg{}
-		m.Id = 77
-		name := string(a[4].B)
-		for i := 0; i < int(a[2].I); i++ {
-			m.Question = append(m.Question, dns.Question{Name: name, Qtype: uint16(a[0].I), Qclass: uint16(a[1].I)})
-		}
 		from := net.Addr(addrN(9))
 		if a[3].I == 1 {
 			from = addrN(1)
-		}
-		mw := m
-		if len(a) < 6 || a[5].I == 0 {
-			w, err := wire(m)
-			if err != nil {
-				return []Tok{TW("unpackable")} // such a message cannot arrive over a real transport
-			}
-			mw = w
 		}
 		var ms0, ms1 runtime.MemStats
 		runtime.ReadMemStats(&ms0)
@@ -91,19 +91,18 @@ func init() {
 			case err != nil || r == nil:
 				out = []Tok{TW("noanswer")}
 			default:
-				kind := "other"
+				kind := "unpackable-answer"
 				if rw, err := wire(r); err == nil {
-					if resp, err := ser.DecodeDnsResponse(rw); err == nil && resp != nil {
-						if e, ok := resp.(*commands.ErrorResponse); ok {
+					// the command letter of the answer and, for an error answer, its code
+					data := util.UnwrapDnsResponse(rw, testDomain)
+					kind = "empty"
+					if len(data) > 0 {
+						kind = "cmd-" + string(data[0])
+						e := &commands.ErrorResponse{}
+						if data[0] == 'e' && e.Decode(enc.Base32Encoding, data) == nil {
 							kind = "error-" + errCode(e.Err)
-						} else {
-							kind = "cmd-" + string(resp.Command().Code)
 						}
-					} else {
-						kind = "undecodable"
 					}
-				} else {
-					kind = "unpackable-answer"
 				}
 				out = []Tok{TW("answered"), TW(kind)}
 			}
@@ -115,6 +114,7 @@ func init() {
 		if a[3].I == 1 && !sadns.VerifUserClosed(sess) {
 			// the owner may change its own session; whatever it asked for, a later write on the session is cut into a
 			// bounded number of chunks and comes back (here: by its deadline, nobody is polling)
+			exchange(sc, ser, &commands.PacketRequest{UserId: 0, LastAckedSeqNo: 0}, addrN(1)) // acknowledge the queued chunk
 			_, _, l0, _ := sadns.VerifUserState(sess)
 			done := make(chan struct{})
 			go func() {
@@ -133,50 +133,34 @@ func init() {
 		}
 		return out
 	})
-	opTimeout["c12c"] = 15 * time.Second
-	// c12c <codec> <qtype of the query> <n records> (<rrtype> <#rdata-ish>)*   the client's decoder on an arbitrary answer section
-	//   rrtype: 10 NULL #data | 65000 PRIVATE #data | 16 TXT #string (one string) | 15 MX #name | 33 SRV #name | 5 CNAME #name | 28 AAAA #16 | 1 A #4 | 2 NS #name
-	//  -> decoded <cmd letter> | error | panic <site> | unpackable
-	register("c12c", func(a []Tok) []Tok {
+	// c10raw <codec> <#domain> (<rrtype> <#rdata>)*   the client's decoder on an arbitrary answer section, given as wire rdata
+	//  -> unpackerr | wire <n> decerr | wire <n> <response tokens> | panic <site>
+	register("c10raw", func(a []Tok) []Tok {
 		codec := encByCode(a[0].I)
-		ser := commands.Serializer{Domain: testDomain, Downstream: util.DownstreamConfig{Encoder: codec}}
-		m := &dns.Msg{}
-		m.SetQuestion("caaa00."+testDomain+".", uint16(a[1].I))
-		m.Response = true
-		n := int(a[2].I)
+		domain := string(a[1].B)
+		rest := a[2:]
+		n := len(rest) / 2
+		buf := []byte{0, 99, 0x84, 0, 0, 1, byte(n >> 8), byte(n), 0, 0, 0, 0}
+		name := []byte{1, 'x', 0}
+		buf = append(buf, name...)
+		buf = append(buf, 0, 16, 0, 1)
 		for i := 0; i < n; i++ {
-			t := uint16(a[3+2*i].I)
-			d := a[4+2*i].B
-			h := dns.RR_Header{Name: m.Question[0].Name, Rrtype: t, Class: dns.ClassINET, Ttl: 1}
-			switch t {
-			case 10:
-				m.Answer = append(m.Answer, &dns.NULL{Hdr: h, Data: string(d)})
-			case 65000:
-				m.Answer = append(m.Answer, &dns.PrivateRR{Hdr: h, Data: &util.SocketAcePrivate{Data: d}})
-			case 16:
-				m.Answer = append(m.Answer, &dns.TXT{Hdr: h, Txt: []string{string(d)}})
-			case 15:
-				m.Answer = append(m.Answer, &dns.MX{Hdr: h, Preference: uint16(i), Mx: string(d)})
-			case 33:
-				m.Answer = append(m.Answer, &dns.SRV{Hdr: h, Priority: uint16(i), Target: string(d)})
-			case 5:
-				m.Answer = append(m.Answer, &dns.CNAME{Hdr: h, Target: string(d)})
-			case 28:
-				m.Answer = append(m.Answer, &dns.AAAA{Hdr: h, AAAA: net.IP(d)})
-			case 1:
-				m.Answer = append(m.Answer, &dns.A{Hdr: h, A: net.IP(d)})
-			default:
-				m.Answer = append(m.Answer, &dns.NS{Hdr: h, Ns: string(d)})
-			}
+			t := int(rest[2*i].I)
+			rd := rest[2*i+1].B
+			buf = append(buf, name...)
+			buf = append(buf, byte(t>>8), byte(t), 0, 1, 0, 0, 0, 1, byte(len(rd)>>8), byte(len(rd)))
+			buf = append(buf, rd...)
 		}
-		mw, err := wire(m)
+		m2 := &dns.Msg{}
+		if err := m2.Unpack(buf); err != nil {
+			return []Tok{TW("unpackerr")}
+		}
+		out := []Tok{TW("wire"), TIn(len(m2.Answer))}
+		ser := commands.Serializer{Domain: domain, Downstream: util.DownstreamConfig{Encoder: codec}}
+		got, err := ser.DecodeDnsResponseWithParams(m2, codec)
 		if err != nil {
-			return []Tok{TW("unpackable")}
+			return append(out, TW("decerr"))
 		}
-		resp, err := ser.DecodeDnsResponseWithParams(mw, codec)
-		if err != nil || resp == nil {
-			return []Tok{TW("error")}
-		}
-		return []Tok{TW("decoded"), TW(string(resp.Command().Code))}
+		return append(out, respFieldToks(got)...)
 	})
 }
